@@ -10,7 +10,7 @@ from ..px import OK, PX, RAISE, Outcomes
 from ..pxv import Obj, Sym
 from ..te import Member, TypeRef
 from .ash_link import ASH, ash_cls, inline_ash
-from .util import const, fut, self_obj, text
+from .util import const, fut, same_class, self_obj, text
 
 UART = "bellows.uart"
 EZ = "bellows.ezsp"
@@ -56,7 +56,7 @@ def r11_2(ctx):
         for rn, rv, rd in FSTATES:
             for sn, sv, sd in FSTATES:
                 done = {t for t, d in (("rf", rd), ("sf", sd)) if d}
-                px = PX(repo, models=fut_models(done), inline=lambda g, aw: False)
+                px = PX(repo, models=fut_models(done), inline=same_class())
 
                 def setup():
                     return (self_obj(gw_cls(ctx), {"_reset_future": fut("rf") if rv else None, "_startup_reset_future": fut("sf") if sv else None}),
@@ -78,7 +78,7 @@ def r11_2(ctx):
                     ctx.require(ok, f"triage:{'software' if code.value == soft.value else 'other'}:reset={rn},startup={sn}", f"{key}: {msg}", func=f,
                                 trace=p.trace(10))
     g = repo.func(f"{UART}:Gateway.error_received")
-    px = PX(repo, inline=lambda g_, aw: False)
+    px = PX(repo, inline=same_class())
     for p in px.explore(g, lambda: (self_obj(gw_cls(ctx), {}), {"code": Sym("code")})):
         fails = [e for e in p.events if e.kind == "call" and e.what == "self._application.enter_failed_state"]
         ctx.require(len(fails) == 1 and fails[0].args[:1] == (Sym("code"),), "error_received", "Gateway.error_received does not report the failure", func=g)
@@ -97,7 +97,7 @@ def r11_1(ctx):
     ctx.fn(f)
     models = [("*.create_future", lambda px, t, a, k, fr: fut("newfut")), ("await:*", Outcomes(OK(True), RAISE("TimeoutError"), RAISE("ConnectionResetError"), RAISE("CancelledError")))]
     for existing in (False, True):
-        px = PX(repo, models=models, inline=lambda g, aw: False)
+        px = PX(repo, models=models, inline=same_class(stop=("_reset_cleanup",)))
         for p in px.explore(f, lambda: (self_obj(gw_cls(ctx), {"_reset_future": fut("oldfut") if existing else None}), {})):
             ctx.paths += 1
             snd = [e for e in p.events if e.kind == "call" and e.what == "self._transport.send_reset"]
@@ -130,19 +130,26 @@ def r11_1(ctx):
         ctx.require(p.store["self"].get("_reset_future") is None, "reset_cleanup", "_reset_cleanup leaves the waiter attribute set", func=c)
     w = repo.func(f"{UART}:Gateway.wait_for_startup_reset")
     ctx.fn(w)
-    px = PX(repo, models=models, inline=lambda g, aw: False)
+    px = PX(repo, models=models, inline=same_class())
     for p in px.explore(w, lambda: (self_obj(gw_cls(ctx), {"_startup_reset_future": None}), {})):
         aw = [e for e in p.events if e.kind == "await"]
         ok = len(aw) == 1 and getattr(aw[0].args[0], "tag", "") == "newfut" and p.store["self"].get("_startup_reset_future") is None
         ctx.require(ok, "startup-waiter", f"wait_for_startup_reset ({aw[0].extra if aw else None!r}): awaited {[e.args for e in aw]}, attribute afterwards "
                     f"{p.store['self'].get('_startup_reset_future')!r}", func=w, trace=p.trace())
-    # startup_reset bounds the start-up wait
+    # startup_reset bounds the start-up wait (wherever the wait is written: in startup_reset or in a helper of it)
     s = repo.func(f"{EZ}:EZSP.startup_reset")
-    ok = False
-    for n in ast.walk(s.node):
-        if isinstance(n, ast.AsyncWith) and any(text(i.context_expr).startswith("asyncio_timeout(") for i in n.items):
-            ok = ok or any(isinstance(q, ast.Await) and text(q.value).endswith("wait_for_startup_reset()") for b in n.body for q in ast.walk(b))
-    ctx.require(ok, "startup-wait-bounded", "EZSP.startup_reset does not bound wait_for_startup_reset with asyncio_timeout", func=s)
+    models2 = [("urllib.parse.urlparse", lambda px_, t, a, k, fr: Obj(TypeRef("ParseResult"), {"scheme": "socket"}, tag="url")),
+               ("self._gw.wait_for_startup_reset", Outcomes(OK(None), RAISE("TimeoutError"))), ("self.reset", Outcomes(OK(None))), ("self.version", Outcomes(OK(None))),
+               ("self._config[conf.CONF_DEVICE_PATH]", lambda *a: "path"), ("*.is_set", lambda *a: False)]
+    px = PX(repo, models=models2, inline=same_class(stop=("handle_callback",)))
+    seen = 0
+    for p in px.explore(s, lambda: (self_obj(repo.cls(EZ, "EZSP"), {"_config": Sym("cfg")}), {})):
+        for e in p.events:
+            if e.kind == "await" and e.what == "self._gw.wait_for_startup_reset":
+                seen += 1
+                ctx.require(any(c.endswith("asyncio_timeout") for c in e.ctx), "startup-wait-bounded",
+                            "EZSP.startup_reset waits for the spontaneous start-up reset without an enclosing asyncio_timeout", func=s, trace=p.trace(10))
+    ctx.anchor(seen >= 1, "startup_reset awaits wait_for_startup_reset on a socket path")
 
 
 @rule("R10.1", ["C10", "C11"], "T-FUT", floor=20)
@@ -159,7 +166,7 @@ def r10_1(ctx):
         for rn, rv, rd in FSTATES:
             for sn, sv, sd in FSTATES:
                 done = {t for t, d in (("rf", rd), ("sf", sd), ("cdf", False)) if d}
-                px = PX(repo, models=fut_models(done), inline=lambda g, aw: False)
+                px = PX(repo, models=fut_models(done), inline=same_class())
 
                 def setup():
                     e = Obj(TypeRef("builtins.OSError"), {}, tag="exc") if exc else None
@@ -198,10 +205,10 @@ def r10_1(ctx):
         ctx.require(ok, "ash:connection_lost", f"AshProtocol.connection_lost: upward {[e.brief() for e in up]}, transport {p.store['self'].get('_transport')!r}, "
                     f"released {[e.callee for e in completions(p)]}", func=a, trace=p.trace())
     e1 = repo.func(f"{ASH}:AshProtocol.eof_received")
-    for p in PX(repo, inline=lambda g, aw: False).explore(e1, lambda: (self_obj(ash_cls(ctx), {}), {})):
+    for p in PX(repo, inline=same_class()).explore(e1, lambda: (self_obj(ash_cls(ctx), {}), {})):
         ctx.require([e.what for e in p.events if e.kind == "call"] == ["self._ezsp_protocol.eof_received"], "ash:eof", "AshProtocol.eof_received does not forward", func=e1)
     e2 = repo.func(f"{UART}:Gateway.eof_received")
-    for p in PX(repo, inline=lambda g, aw: False).explore(e2, lambda: (self_obj(gw_cls(ctx), {}), {})):
+    for p in PX(repo, inline=same_class(stop=("connection_lost",))).explore(e2, lambda: (self_obj(gw_cls(ctx), {}), {})):
         cl = [e for e in p.events if e.kind == "call" and e.what == "self.connection_lost"]
         ok = len(cl) == 1 and isinstance(cl[0].args[0], Obj) and cl[0].args[0].cls_name in ("ConnectionResetError", "ConnectionError", "OSError")
         ctx.require(ok, "gateway:eof", f"Gateway.eof_received -> {[e.brief() for e in cl]} (must be connection_lost(<connection error>))", func=e2)
@@ -227,7 +234,7 @@ def r10_2(ctx):
     f = repo.func(f"{EZ}:EZSP.enter_failed_state")
     ctx.fn(f)
     for ncb in (1, 2, 3):
-        px = PX(repo, inline=lambda g, aw: g.name in ("close", "stop_ezsp") and g.cls is not None and g.cls.name == "EZSP")
+        px = PX(repo, inline=same_class(stop=("handle_callback",)))
 
         def setup():
             return (self_obj(ez, {"_callbacks": {i: Sym(f"cb{i}") for i in range(ncb)}, "_gw": Obj(TypeRef("Gateway"), {}, tag="gw"),
@@ -248,7 +255,7 @@ def r10_2(ctx):
             else:
                 ctx.require(p.terminal == "return", "enter_failed_state:no-app", f"raises {p.value!r} with no application attached", func=f)
     cl = repo.func(f"{EZ}:EZSP.connection_lost")
-    for p in PX(repo, inline=lambda g, aw: False, models=[("self._config[conf.CONF_DEVICE_PATH]", lambda *a: "dev")]).explore(
+    for p in PX(repo, inline=same_class(stop=("enter_failed_state",)), models=[("self._config[conf.CONF_DEVICE_PATH]", lambda *a: "dev")]).explore(
             cl, lambda: (self_obj(ez, {}), {"exc": Sym("exc")})):
         efs = [e for e in p.events if e.kind == "call" and e.what == "self.enter_failed_state"]
         ctx.require(p.terminal == "return" and len(efs) == 1, "ezsp:connection_lost", f"EZSP.connection_lost -> {[e.what for e in p.events if e.kind == 'call']}", func=cl)
@@ -263,7 +270,7 @@ def r10_2(ctx):
     cm = repo.func(f"{EZ}:EZSP._command")
     ctx.fn(cm)
     for running in (True, False):
-        px = PX(repo, models=[("*.is_set", lambda px_, t, a, k, fr: running)], inline=lambda g_, aw: g_.name == "is_ezsp_running")
+        px = PX(repo, models=[("*.is_set", lambda px_, t, a, k, fr: running)], inline=same_class())
         for p in px.explore(cm, lambda: (self_obj(ez, {"_protocol": Obj(TypeRef("Handler"), {}, tag="proto")}), {"name": "nop", "args": (), "kwargs": {}})):
             sent = [e for e in p.events if e.kind == "await"]
             ok = (running and len(sent) == 1 and p.terminal == "return") or (not running and not sent and p.raised("EzspError"))
